@@ -187,7 +187,22 @@ def _run_case(case, rec, mon=None):
             rec.count("configurations_not_constructible")
     else:
         try:
-            bank = gen.build_bank(cfg)
+            sc_ = cfg.get("scaling_function")
+            if isinstance(sc_, dict) and sc_.get("name") in ("linear", "octave") and case["idx"] % 2 == 0:
+                # the scale handed over as an object that was re-tuned through its documented attributes after it was made (one scale
+                # object, adjusted per corpus): the bank is laid out on the scale as it is when the bank is built
+                from pydrobert.speech import scales as S_
+
+                if sc_["name"] == "linear":
+                    obj_ = S_.LinearScaling(0.0, 1.0)
+                    obj_.low_hz, obj_.slope_hz = sc_["low_hz"], sc_["slope_hz"]
+                else:
+                    obj_ = S_.OctaveScaling(440.0)
+                    obj_.low_hz = sc_["low_hz"]
+                bank = gen.build_bank(dict(cfg, scaling_function=obj_))
+                rec.count("banks_built_on_a_scale_object_retuned_after_construction")
+            else:
+                bank = gen.build_bank(cfg)
         except Exception as e:
             rec.count("bank_construction_raised")
             bank = None
